@@ -30,9 +30,9 @@ def judge_c14(d):
 
 PROPS = {
     "C14": {
-        "lean_modules": ["P2.Props.C14Gen", "P2.Props.C14"],
+        "lean_modules": ["P2.Props.C14Gen", "P2.Props.C14GenB", "P2.Props.C14"],
         "audit_module": "P2.Audit.C14",
-        "extra_audit_modules": ["P2.Audit.GL2Field"],
+        "extra_audit_modules": ["P2.Audit.GL2Field", "P2.Audit.C14GenB"],
         "harness_prop": "c14",
         "profile": "verif",
         "canon": canon_trap,
@@ -43,7 +43,7 @@ PROPS = {
             "packed AVX2/AVX-512 lanes: not modelled (partial)",
         ],
         "level_text": "(GL2Field: 7 is a quadratic non-residue mod p (Euler criterion, kernel-evaluated modular power), hence the model's quadratic extension GL2 with ITS OWN add/mul/sub/neg/inv is a field; instFOpsGL2 = FOps.ofField GL2 and instFOpsGL = FOps.ofField GL, so every field-generic theorem of this development instantiates at the model's types; pow2Gen has order 2^32 and primitiveRoot k is a primitive 2^k-th root) Machine-checked Lean 4 theorems: the bit-exact model of every scalar Goldilocks operator and of the delayed-reduction extension multiplications returns the exact residue for ALL operands with no unchecked assumption violated; constants re-extracted from /repo each run; model tied to the Rust code bit-exactly by correspondence",
-        "level_note": "Trusted: Lean kernel; axioms propext/Classical.choice/Quot.sound; extract.py; hand transcription of the Rust control flow tied by differential correspondence (bit-exact raw representation + canonical value vs Nat arithmetic); x86 asm by documented semantics; packed SIMD lanes not covered (partial).",
+        "level_note": "Trusted: Lean kernel; axioms propext/Classical.choice/Quot.sound; extract.py; hand transcription of the Rust control flow tied by differential correspondence (bit-exact raw representation + canonical value vs Nat arithmetic); x86 asm by documented semantics; packed SIMD lanes not covered (partial). Known finding F-C14-1: the quadratic and quartic EXT_MULTIPLICATIVE_GROUP_GENERATOR constants are not generators (kernel-checked negation in P2/Findings/FC14_1.lean — deliberately not an obligation — with the witnesses q = 7 and q = 13, replayed on the implementation by the generator-order probes of the harness); the two-adic generators, which is what the code uses, have exactly their declared orders.",
         "assumptions": ["harness built with debug-assertions and overflow-checks so violated assume()/overflow panics"],
         "rule": "operator requests on boundary pairs, branch witnesses (double overflow/underflow, reduce128 borrow), carry-shaped and random canonical/non-canonical words; distinct = distinct request lines; non-trivial = every request exercises one operator on the real code and on the L0 model (bit-exact) and on Nat arithmetic mod p",
     },
